@@ -33,7 +33,8 @@ CBMC_BASE = ["--unwinding-assertions", "--no-malloc-may-fail", "--drop-unused-fu
              "--object-bits", "12", "--slice-formula"]
 # exception-object construction is never the subject: backtrace capture is skipped (DESIGN 2.2)
 DEFAULT_NOOP = ["^_ZN7booster9backtraceC[12]Em$"]
-MEM_LIMIT_KB = 16 * 1024 * 1024
+MEM_LIMIT_KB = 9 * 1024 * 1024          # per solver instance while several run in parallel
+MEM_LIMIT_RETRY_KB = 40 * 1024 * 1024   # an instance that ran out of memory is retried alone with this limit
 
 
 class Inconclusive(Exception):
@@ -44,7 +45,8 @@ def run(cmd, timeout=None, cwd=None, stdin=None, limit_mem=False, env=None):
     def pre():
         os.setsid()
         if limit_mem:
-            resource.setrlimit(resource.RLIMIT_AS, (MEM_LIMIT_KB * 1024, MEM_LIMIT_KB * 1024))
+            lim = (MEM_LIMIT_RETRY_KB if limit_mem == "retry" else MEM_LIMIT_KB) * 1024
+            resource.setrlimit(resource.RLIMIT_AS, (lim, lim))
     t0 = time.time()
     p = subprocess.Popen(cmd, stdout=subprocess.PIPE, stderr=subprocess.STDOUT, cwd=cwd, env=env,
                          stdin=subprocess.PIPE if stdin is not None else subprocess.DEVNULL, preexec_fn=pre)
@@ -338,7 +340,7 @@ def prepare(ctx, ob):
     return res
 
 
-def run_instance(ctx, ob, res, params):
+def run_instance(ctx, ob, res, params, retry=False):
     """one CBMC run (one concrete choice of the split parameters)"""
     tcfg = ob["tiers"].get(ctx.tier) or ob["tiers"]["quick"]
     entry = ob["entry"]
@@ -350,8 +352,11 @@ def run_instance(ctx, ob, res, params):
             timeout = min(timeout, int(os.environ["VERIF_TIMEOUT_CAP"]))
         cmd = cbmc_cmd(ob, tcfg, cfile, entry, ["--verbosity", "8"], params=params)
         r["checker_cmd"] = " ".join(cmd).replace(ctx.scratch, "$SCRATCH")
-        rc, out, dt, to = run(cmd, timeout=timeout, limit_mem=True)
+        rc, out, dt, to = run(cmd, timeout=timeout, limit_mem=("retry" if retry else True))
         r["cbmc_wall_s"] = round(dt, 2)
+        if not to and not retry and (rc in (-9, 6, 134) or "out of memory" in out.lower()) and "VERIFICATION SUCCESSFUL" not in out and "VERIFICATION FAILED" not in out:
+            r["status"] = "RETRY-ALONE"
+            return r
         if ctx.keep:
             open(cfile + ".%s.cbmc.log" % "_".join(str(p) for p in params), "w").write(out)
         if to:
@@ -388,7 +393,7 @@ def run_instance(ctx, ob, res, params):
                     break
             cmd2 = [x for x in cbmc_cmd(ob, tcfg, cfile, entry, ["--property", first["id"], "--trace"], params=params)
                     if x != "--slice-formula"]
-            rc, tout, dt2, to = run(cmd2, timeout=timeout, limit_mem=True)
+            rc, tout, dt2, to = run(cmd2, timeout=timeout, limit_mem="retry")
             if to:
                 raise Inconclusive("cbmc timeout while producing the trace for %s" % ob["id"])
             inputs = extract_inputs(tout, first["id"])
@@ -535,7 +540,7 @@ def do_check(a, scratch):
         obs = [o for o in P["obligations"]]
     if a.only:
         obs = [o for o in obs if o["id"] == a.only or o["entry"] == a.only]
-    jobs = a.jobs or min(12, os.cpu_count() or 4)
+    jobs = a.jobs or min(6, os.cpu_count() or 4)
     ctx = Ctx(prop, a.tier, scratch, jobs, a.keep)
     t0 = time.time()
     results = []
@@ -549,9 +554,19 @@ def do_check(a, scratch):
             tcfg = ob["tiers"].get(ctx.tier) or ob["tiers"]["quick"]
             fl = [ex.submit(run_instance, ctx, ob, res, par) for par in instances(tcfg)]
             futs.append((ob, res, fl))
+        pending = []
         for ob, res, fl in futs:
+            irs = [f.result() for f in fl] if res["status"] == "?" else []
+            pending.append((ob, res, irs))
+        # instances that ran out of memory next to others are repeated one at a time with a larger limit
+        for ob, res, irs in pending:
+            tcfg = ob["tiers"].get(ctx.tier) or ob["tiers"]["quick"]
+            for i, r in enumerate(irs):
+                if r["status"] == "RETRY-ALONE":
+                    irs[i] = run_instance(ctx, ob, res, tuple(r["params"]), retry=True)
+                    irs[i]["retried_alone"] = True
+        for ob, res, irs in pending:
             if res["status"] == "?":
-                irs = [f.result() for f in fl]
                 aggregate(ctx, ob, res, irs)
             results.append(res)
         # translator validation on concrete vectors (only meaningful when the solver run passed)
